@@ -15,7 +15,10 @@ mod filters;
 mod astjson;
 mod astsynth;
 mod gen;
+mod literals;
 mod evaluator;
+mod dataconv;
+mod bundle;
 
 fn main() {
     let args: Vec<String> = std::env::args().skip(1).collect();
@@ -37,6 +40,9 @@ fn main() {
         Some("astcheck") => astjson::main_astcheck(&args[1..]),
         Some("astjson") => astjson::main_astjson(&args[1..]),
         Some("gen") => gen::main(&args[1..]),
+        Some("literals") => literals::main(&args[1..]),
+        Some("dataconv") => dataconv::main(&args[1..]),
+        Some("bundle") => bundle::main(&args[1..]),
         Some("version") => {
             println!("dlv 0.1");
             0
